@@ -279,7 +279,7 @@ def main(tier):
                 ck.add(r)
     for (k, can), oc in zip(CANARIES, outs[len(kinds):]):
         ref = oc[0] == "ok" and not oc[1]["error"] and any(r["status"] != "proved" for r in oc[1]["results"])
-        ck.canaries.append((f"{can[0]}: {can[2][:50]!r} -> {can[3][:50]!r}", ref))
+        ck.canary(f"{can[0]}: {can[2][:50]!r} -> {can[3][:50]!r}", ref, oc)
     ck.bounded = {"evaluations": evals, "distinct_nontrivial": cases, "exhaustive": tier != "quick",
                   "rule": "4-cell network with cells of 2 and 3 compartments; populations = non-empty subsets of the cells (quick: a fixed stride of them); fully_connect per population pair; "
                           "connectivity_matrix_connect for all boolean matrices up to 16 (quick) / 64 per pair (else all-False, all-True and 6 / 14 seeded); sparse_connect with np.random.binomial forced to every count 0..n_pre*n_post x seeds; "
